@@ -21,6 +21,14 @@ THEOREMS = ["PyOak.C06." + t for t in [
 THEOREMS += ["PyOak.C06X." + t for t in ["parseSpell_spell", "spellChain_injective", "spellChain_positions",
                                           "xpath_injective", "follow_spell", "follow_getXpath", "namesOK_of_wfn",
                                           "fieldsOK_of_wfn"]]
+# additions (AUDIT item #9): KeyError for EVERY query on a foreign node, uniqueness of the chain, is_root
+THEOREMS += ["PyOak.C06." + t for t in [
+    "isInTree_foreign", "isRoot_foreign", "getXpath_foreign", "getParent_foreign", "getAncestors_foreign",
+    "isAncestor_foreign", "getDepth_foreign", "firstAncestorOfType_foreign", "foreign_all_keyError",
+    "getXpath_keyError_iff", "parentInfo_keyError_iff", "chain_unique", "chain_unique_uid", "exists_unique_chain",
+    "isRoot_iff", "isRoot_chain", "isRoot_chain_edge", "parentInfo_none_iff", "queries_total",
+    "DemoT.chain_unique_needs_noRepeat"]]
+THEOREMS += ["PyOak.C06X." + t for t in ["walkDown_sound", "follow_sound", "follow_mem", "follow_steps_unique"]]
 RULE = ("seeded zoo trees without repeated objects (content-identical twins at different positions included), "
         "every node as query argument for is_in_tree/is_root/get_parent/get_parent_info/get_ancestors/get_xpath/"
         "get_depth, sampled pairs for is_ancestor/relative get_depth/get_first_ancestor_of_type, foreign nodes that "
